@@ -203,6 +203,10 @@ pub struct Report {
     pub evaluations: std::sync::atomic::AtomicU64,
     pub validated: std::sync::atomic::AtomicU64,
     pub max_failures_kept: usize,
+    /// known findings, loaded once; failures matching a `known` entry are counted here and not stored
+    pub known: Vec<KnownFinding>,
+    pub kf_hits: Mutex<BTreeMap<String, (String, u64, String)>>,
+    pub dropped_violations: std::sync::atomic::AtomicU64,
 }
 
 impl Report {
@@ -227,6 +231,9 @@ impl Report {
             evaluations: Default::default(),
             validated: Default::default(),
             max_failures_kept: 200_000,
+            known: load_known(),
+            kf_hits: Mutex::new(BTreeMap::new()),
+            dropped_violations: Default::default(),
         }
     }
     pub fn count(&self, key: &str, n: u64) {
@@ -239,12 +246,19 @@ impl Report {
         self.validated.fetch_add(n, std::sync::atomic::Ordering::Relaxed);
     }
     pub fn fail(&self, f: Failure) {
+        // triage immediately: known findings are only counted, so that no cap can hide an unlisted violation
+        if let Some(k) = self.known.iter().find(|k| kf_matches(k, &self.prop, &f)) {
+            let mut h = self.kf_hits.lock().unwrap();
+            let e = h.entry(k.id.clone()).or_insert((k.title.clone(), 0, f.input.clone()));
+            e.1 += 1;
+            return;
+        }
         let mut v = self.failures.lock().unwrap();
         if v.len() < self.max_failures_kept {
             v.push(f);
         } else {
             drop(v);
-            self.count("failures_dropped_over_cap", 1);
+            self.dropped_violations.fetch_add(1, std::sync::atomic::Ordering::Relaxed);
         }
     }
     pub fn sample(&self, v: Value) {
@@ -281,20 +295,12 @@ impl Report {
 
     /// Triage failures against known findings, write replays + evidence, print verdict lines; returns exit code.
     pub fn finish(&self) -> i32 {
-        let known = load_known();
+        let known = &self.known;
         let mut failures = self.failures.lock().unwrap().clone();
         failures.sort_by(|a, b| (&a.space, &a.choices, &a.kind, &a.detail).cmp(&(&b.space, &b.choices, &b.kind, &b.detail)));
-        let mut kf_hits: BTreeMap<String, (String, u64, String)> = BTreeMap::new();
-        let mut violations: Vec<&Failure> = vec![];
-        for f in &failures {
-            match known.iter().find(|k| kf_matches(k, &self.prop, f)) {
-                Some(k) => {
-                    let e = kf_hits.entry(k.id.clone()).or_insert((k.title.clone(), 0, f.input.clone()));
-                    e.1 += 1;
-                }
-                None => violations.push(f),
-            }
-        }
+        let kf_hits: BTreeMap<String, (String, u64, String)> = self.kf_hits.lock().unwrap().clone();
+        let violations: Vec<&Failure> = failures.iter().collect();
+        let dropped = self.dropped_violations.load(std::sync::atomic::Ordering::Relaxed);
         for (id, (title, n, _)) in &kf_hits {
             println!("KNOWN-FINDING: property={} {} {} ({} cases)", self.prop, id, title, n);
         }
@@ -358,7 +364,7 @@ impl Report {
             }
         }
         if !violations.is_empty() {
-            println!("violations: {} cases in {} groups (first {} written as replays)", violations.len(), groups.len(), printed);
+            println!("violations: {} cases in {} groups (first {} written as replays){}", violations.len() as u64 + dropped, groups.len(), printed, if dropped > 0 { format!("; {} more over the in-memory cap", dropped) } else { String::new() });
         }
 
         let st = self.stats.lock().unwrap().clone();
@@ -397,7 +403,7 @@ impl Report {
             "coverage": Value::Object(coverage),
             "assumptions": self.assumptions.lock().unwrap().clone(),
             "wall_s": (wall * 100.0).round() / 100.0,
-            "violations": violations.len(),
+            "violations": violations.len() as u64 + dropped,
         });
         let evdir = format!("{}/evidence", verif_dir());
         let _ = std::fs::create_dir_all(&evdir);
